@@ -1,9 +1,11 @@
 package main
 
 import (
+	"fmt"
 	"go/ast"
 	"go/token"
 	"go/types"
+	"strings"
 )
 
 // ---------------------------------------------------------------------------
@@ -216,4 +218,122 @@ func (c *Ctx) evalHelpers(a *genAnchors) map[*types.Func]*evalHelper {
 		}
 	}
 	return res
+}
+
+// ---------------------------------------------------------------------------
+// R01.7 lazily compiled boolean operators yield a Bool or an error
+
+// ruleR017: the operators a custom generator compiles with short circuit
+// evaluation (cases of the switch over Operate.Operator in GenerateCustom)
+// are the boolean operators of the language; their eager implementations in
+// the operation matrix return a Bool or fail. The compiled form has to agree:
+// every successful return of the generated closure is an expression of static
+// type Bool - never an operand handed through unchecked.
+func ruleR017(c *Ctx) {
+	a := c.genAnchors()
+	if len(a.missing) > 0 {
+		c.Undecided("anchors", token.NoPos, "not found")
+		return
+	}
+	n := 0
+	for _, pkg := range c.RepoPkgs {
+		info := pkg.TypesInfo
+		boolT := LookupType(pkg, "Bool")
+		for _, f := range pkg.Syntax {
+			for _, d := range f.Decls {
+				fd, ok := d.(*ast.FuncDecl)
+				if !ok || fd.Name.Name != "GenerateCustom" || fd.Body == nil {
+					continue
+				}
+				ast.Inspect(fd.Body, func(x ast.Node) bool {
+					sw, ok := x.(*ast.SwitchStmt)
+					if !ok || sw.Tag == nil {
+						return true
+					}
+					sel, ok := ast.Unparen(sw.Tag).(*ast.SelectorExpr)
+					if !ok || sel.Sel.Name != "Operator" || !isNamed(info.TypeOf(sel.X), modPath, "Operate") {
+						return true
+					}
+					for _, cl := range sw.Body.List {
+						cc := cl.(*ast.CaseClause)
+						if len(cc.List) == 0 {
+							continue
+						}
+						opName := nodeStr(c.Fset, cc.List[0])
+						// the literals of the clause and of the private constructors it delegates to
+						var lits []*ast.FuncLit
+						collect := func(root ast.Node) {
+							ast.Inspect(root, func(y ast.Node) bool {
+								if lit, ok := y.(*ast.FuncLit); ok && isGeneratedClosure(a, info, lit) {
+									lits = append(lits, lit)
+									return false
+								}
+								return true
+							})
+						}
+						for _, s := range cc.Body {
+							collect(s)
+							ast.Inspect(s, func(y ast.Node) bool {
+								if call, ok := y.(*ast.CallExpr); ok {
+									if cal := Callee(info, call); cal != nil && cal.Pkg() == pkg.Types && cal.Origin() != a.genFunc.Origin() {
+										if hd := findFuncDecl(pkg, cal); hd != nil && hd.Body != nil && hd != fd {
+											collect(hd.Body)
+										}
+									}
+								}
+								return true
+							})
+						}
+						key := fmt.Sprintf("%s#lazy-operator %s", declName(pkg, fd), opName)
+						if len(lits) == 0 {
+							c.Undecided(key, cc.Pos(), "no generated closure found for the lazily compiled operator")
+							continue
+						}
+						n++
+						var bad []string
+						for _, lit := range lits {
+							inspectNoLit(lit.Body, func(y ast.Node) bool {
+								r, ok := y.(*ast.ReturnStmt)
+								if !ok {
+									return true
+								}
+								switch len(r.Results) {
+								case 1:
+									// return child(st, cs): both results of an operand are handed through
+									bad = append(bad, fmt.Sprintf("%s at %s hands an operand through unchecked", nodeStr(c.Fset, r.Results[0]), c.posStr(r.Pos())))
+								case 2:
+									if id, ok := ast.Unparen(r.Results[1]).(*ast.Ident); !ok || id.Name != "nil" {
+										return true // an error return
+									}
+									t := info.TypeOf(r.Results[0])
+									if boolT == nil || t == nil || !types.Identical(t, boolT.Type()) {
+										bad = append(bad, fmt.Sprintf("%s at %s has the static type %s, not Bool", nodeStr(c.Fset, r.Results[0]), c.posStr(r.Pos()), t))
+									}
+								}
+								return true
+							})
+						}
+						if len(bad) == 0 {
+							c.OK(key, cc.Pos(), "every successful return of the compiled operator is a Bool (like its eager implementation, which returns a Bool or fails)")
+						} else {
+							c.Violation(key, cc.Pos(), "the lazily compiled operator %s can succeed with a value that is no Bool (%s): where the eager implementation used by the constant folder and the reference semantics fail with 'not a bool', the compiled code returns the operand", opName, strings.Join(bad, "; "))
+						}
+					}
+					return true
+				})
+			}
+		}
+	}
+	if n < 2 {
+		c.Undecided("value.FunctionGenerator.GenerateCustom#lazy-operators", token.NoPos, "expected the lazily compiled & and |, found %d", n)
+	}
+}
+
+// isGeneratedClosure: func(st Stack, cs []V) (V, error)
+func isGeneratedClosure(a *genAnchors, info *types.Info, lit *ast.FuncLit) bool {
+	sig, ok := info.TypeOf(lit).(*types.Signature)
+	if !ok || sig.Params().Len() != 2 || sig.Results().Len() != 2 {
+		return false
+	}
+	return a.isStack(sig.Params().At(0).Type()) && isErrorType(sig.Results().At(1).Type())
 }
